@@ -170,8 +170,10 @@ def x_prog(ctx, case):
             ctx.check(snap == initial, "scratch.untouched", detail)
         # addOnException handlers registered by a stage stay registered on the instance (they are
         # not cleanups), so their calls are not part of the stage/cleanup sequence compared here
+        outcome_details = [sorted((e.payload or {}).get("details") or {}) for e in log.events
+                           if e.name in recorders.OUTCOMES]
         histories.append(([e[1:] for e in env.events if not e[1].startswith("onexc_")],
-                          log.names(), type(run.propagated).__name__))
+                          log.names(), type(run.propagated).__name__, outcome_details))
         nontrivial = nontrivial or bool(env.raised or env.tags("reg", "patch", "use_fixture"))
     ctx.check(histories[0] == histories[1] == histories[2], "rerun.same-sequence",
               lambda: {"run1": histories[0][1:], "run2": histories[1][1:], "run3": histories[2][1:],
